@@ -489,6 +489,48 @@ fn main() {
                 let mut doc = toml_edit::DocumentMut::new();
                 *doc.as_table_mut() = tb;
                 out.push_str(&format!("{i} D {}\n", hex(&doc.to_string())));
+                // the same structure with caller-supplied decoration that uses CRLF line ends
+                // (comments before entries and tables, after values, inside arrays, at the end)
+                fn decorate(t: &mut toml_edit::Table, n: &mut usize) {
+                    t.decor_mut().set_prefix(format!("\r\n# table {n}\r\n"));
+                    let keys: Vec<String> = t.iter().map(|(k, _)| k.to_string()).collect();
+                    for k in keys {
+                        *n += 1;
+                        if t.get(&k).map(|it| it.is_value()).unwrap_or(false) {
+                            if let Some(mut km) = t.key_mut(&k) {
+                                km.leaf_decor_mut().set_prefix(format!("# before entry {n}\r\n"));
+                            }
+                        }
+                        match t.get_mut(&k) {
+                            Some(toml_edit::Item::Value(v)) => {
+                                v.decor_mut().set_suffix(format!(" # after value {n}\r"));
+                                if let toml_edit::Value::Array(a) = v {
+                                    if !a.is_empty() {
+                                        for e in a.iter_mut() {
+                                            e.decor_mut().set_prefix("\r\n    ");
+                                        }
+                                        a.set_trailing("\r\n");
+                                        a.set_trailing_comma(true);
+                                    }
+                                }
+                            }
+                            Some(toml_edit::Item::Table(c)) => decorate(c, n),
+                            Some(toml_edit::Item::ArrayOfTables(a)) => {
+                                for c in a.iter_mut() {
+                                    decorate(c, n);
+                                }
+                            }
+                            _ => {}
+                        }
+                    }
+                }
+                let mut doc2 = toml_edit::DocumentMut::new();
+                *doc2.as_table_mut() = te::build_table(&root);
+                let mut n = 0usize;
+                decorate(doc2.as_table_mut(), &mut n);
+                doc2.as_table_mut().decor_mut().set_prefix("");
+                doc2.set_trailing("# the end\r\n");
+                out.push_str(&format!("{i} DD {}\n", hex(&doc2.to_string())));
             }
             #[cfg(all(feature = "te", not(feature = "te_display")))]
             {
